@@ -38,7 +38,7 @@ def meshes(tier):
 
 def cases(tier, seed):
     out = []
-    geos = list(scope.geometries(2))
+    geos = list(scope.geometries(2)) + scope.extreme_geometries(2)
     for mi, mesh in enumerate(meshes(tier)):
         nlev = len(mesh["levels"])
         lays = [[None] * nlev]
